@@ -22,6 +22,7 @@ import (
 	"github.com/fluffle/goirc/client"
 	"verifharness/fakenet"
 	"verifharness/sess"
+	"verifharness/tracer"
 )
 
 // Scenario is one point of the scenario space.
@@ -696,6 +697,7 @@ func RunLife(args []string) int {
 	from := fs.Int("from", 0, "skip scenarios with a smaller id")
 	scen := fs.String("scenario", "", "run the scenario stored in this JSON file (replay)")
 	procs := fs.Int("procs", 0, "GOMAXPROCS (0: leave)")
+	trace := fs.String("trace", "", "record the hook events of every scenario into this ND-JSON file (for ConnTrace.tla)")
 	fs.Parse(args)
 	if *procs > 0 {
 		runtime.GOMAXPROCS(*procs)
@@ -730,6 +732,15 @@ func RunLife(args []string) int {
 	} else {
 		list = Families(*tier, rng)
 	}
+	var tr *tracer.Tracer
+	if *trace != "" {
+		var err error
+		if tr, err = tracer.New(*trace); err != nil {
+			fmt.Println(err)
+			return 2
+		}
+		defer func() { fmt.Printf("TRACE events=%d\n", tr.Close()) }()
+	}
 	start := time.Now()
 	nprob := 0
 	keys := map[string]bool{}
@@ -739,7 +750,14 @@ func RunLife(args []string) int {
 		}
 		sb, _ := json.Marshal(sc)
 		fmt.Println("BEGIN " + string(sb))
+		if tr != nil {
+			tr.Reset(qcap, sc.Ping)
+		}
 		res := Run(sc, *seed*7919+int64(sc.ID))
+		if tr != nil {
+			waitNoInternal(500 * time.Millisecond)
+			tr.Pause()
+		}
 		keys[sc.Key()] = true
 		if len(res.Problems) > 0 || res.Skipped != "" {
 			nprob += len(res.Problems)
